@@ -49,6 +49,9 @@ def m_to_value(I, st, info, args, depth):
 def _jname(I, st, v):
     v = MD.deref(I, st, v)
     if isinstance(v, A.Struct) and v.adt == "serde_json::value::Value":
+        origin = st.facts.get(("refined_from", id(v)))
+        if origin is not None and v.variant != "Null":
+            return origin, v       # a member of the payload seen through a `match` on its variant: still that member
         return "Value::" + str(v.variant), v
     return getattr(v, "name", repr(v)), v
 
@@ -156,7 +159,7 @@ def merge(per_cfg):
 GP = "crate::generic::parsers::generic_parser::GenericParser"
 
 
-def _api_parser(st, facts, foot, ia):
+def _api_parser(st, facts, foot, ia, order=0):
     """the parser value obtained through its own API - default(), set_footer(F), set_implicit_assertion(A) - so that nothing is assumed
     about how GenericParser keeps the two expected values (own fields, Option fields, a nested private struct); None when that cannot
     be done on the current source (then the value is written down field by field)"""
@@ -184,7 +187,9 @@ def _api_parser(st, facts, foot, ia):
     # each value is set twice: what the parser uses is the value given last (a setter that keeps the first one shows)
     old_f = A.Struct(foot.adt, None, {"0": A.Seq("earlier.footer", A.Aff.sym("len(earlier.footer)"), kind="str")})
     old_a = A.Struct(ia.adt, None, {"0": A.Seq("earlier.assertion", A.Aff.sym("len(earlier.assertion)"), kind="str")})
-    for body, arg in ((sf, old_f), (sa, old_a), (sf, foot), (sa, ia)):
+    # (in either order: a setter that rebuilds the stored pair from defaults loses what the other one stored before it)
+    seq = ((sf, old_f), (sa, old_a), (sf, foot), (sa, ia)) if order == 0 else ((sa, old_a), (sf, old_f), (sa, ia), (sf, foot))
+    for body, arg in seq:
         o = one(I.run(body, [A.Ptr(me), arg], st))
         if o is None or o.state is not st:
             return None
@@ -209,20 +214,20 @@ def api_state_decides(facts):
     the authenticating call, however it is kept in between"""
     foot = A.Struct("crate::core::footer::Footer", None, {"0": A.Seq("self.footer", A.Aff.sym("len(self.footer)"), kind="str")})
     ia = A.Struct("crate::core::implicit_assertion::ImplicitAssertion", None, {"0": A.Seq("self.assertion", A.Aff.sym("len(self.assertion)"), kind="str")})
-    if _api_parser(A.State(), facts, foot, ia) is None:
+    if _api_parser(A.State(), facts, foot, ia, 0) is None or _api_parser(A.State(), facts, foot, ia, 1) is None:
         return False
     fs = [f for f in parse_contracts(facts, S.entry_points(facts)) if f.rule == "C03.R6"]
     return len(fs) >= 8 and all(f.ok for f in fs)
 
 
-def parser_value(st, cfg=None, facts=None):
+def parser_value(st, cfg=None, facts=None, order=0):
     expect, valid = cfg or (EXPECT, VALID)
     claims = MI.mapv("claims", [(A.StrV(k), A.Sym("expected_%s" % k, attrs={"expected_of": k})) for k in expect])
     vals = MI.mapv("claim_validators", [(A.StrV(k), A.Sym("validator_%s" % k, attrs={"validator": "V_%s" % k})) for k in valid])
     foot = A.Struct("crate::core::footer::Footer", None, {"0": A.Seq("self.footer", A.Aff.sym("len(self.footer)"), kind="str")})
     ia = A.Struct("crate::core::implicit_assertion::ImplicitAssertion", None, {"0": A.Seq("self.assertion", A.Aff.sym("len(self.assertion)"), kind="str")})
     if facts is not None:
-        v = _api_parser(st, facts, foot, ia)
+        v = _api_parser(st, facts, foot, ia, order)
         if v is not None:
             f = dict(v.fields)
             f["claims"], f["claim_validators"] = claims, vals      # the two tables: named by the registration contracts (C15.R5, C16.R5)
@@ -411,7 +416,7 @@ def parse_level(facts, entries):
             tbl, ctr = [], []
             I = interp(facts, stubs=[(re.compile(r"paseto::Paseto<.*>>::(try_decrypt|try_verify)$"), _core_stub)])
             st = A.State()
-            me = st.new_cell(parser_value(st, cfg, facts))
+            me = st.new_cell(parser_value(st, cfg, facts, order=ci % 2))
             outs = I.run(b, [A.Ptr(me), A.Seq("token", A.Aff.sym("len(token)"), kind="str"), A.Ptr(st.new_cell(A.Sym("key")))], st)
             und = [o for o in outs if o.kind != "return" or o.state.unmodelled or any("undecided" in n for n in o.state.notes)]
             if und or not outs:
@@ -470,18 +475,25 @@ def parse_contracts(facts, entries):
         def vc_stub(I, st, args):
             st.events.append(("verify_claims", MD.describe(I, st, args[1]) if len(args) > 1 else "?"))
             return A.Sym("claims_result", attrs={"adt": "core::result::Result", "make_variant": lambda s2, sym, variant: A.ok(A.Sym("claims_json")) if variant == "Ok" else A.err(A.Sym("GenericParserError"))})
-        I = interp(facts, stubs=[(re.compile(r"paseto::Paseto<.*>>::(try_decrypt|try_verify)$"), core_stub), (re.compile(r"GenericParser::<.*>::verify_claims$"), vc_stub)])
-        st = A.State()
-        me = st.new_cell(parser_value(st, None, facts))
-        args = [A.Ptr(me), A.Seq("token", A.Aff.sym("len(token)"), kind="str"), A.Ptr(st.new_cell(A.Sym("key")))]
-        outs = I.run(b, args, st)
         probs = []
-        und = [o for o in outs if o.kind != "return" or o.state.unmodelled or any("undecided" in n for n in o.state.notes)]
-        if und or not outs:
-            o = und[0] if und else None
-            _f(out, "C03.R6", None, bid, "parse not decided by the abstract interpreter", "no outcome" if o is None else "%s %s %s" % (o.kind, o.state.unmodelled[:2], o.state.notes[:1]), line, file)
+        outs_all = []
+        undecided = None
+        for order in (0, 1):
+            I = interp(facts, stubs=[(re.compile(r"paseto::Paseto<.*>>::(try_decrypt|try_verify)$"), core_stub), (re.compile(r"GenericParser::<.*>::verify_claims$"), vc_stub)])
+            st = A.State()
+            me = st.new_cell(parser_value(st, None, facts, order=order))
+            args = [A.Ptr(me), A.Seq("token", A.Aff.sym("len(token)"), kind="str"), A.Ptr(st.new_cell(A.Sym("key")))]
+            outs = I.run(b, args, st)
+            und = [o for o in outs if o.kind != "return" or o.state.unmodelled or any("undecided" in n for n in o.state.notes)]
+            if und or not outs:
+                o = und[0] if und else None
+                undecided = "no outcome" if o is None else "%s %s %s" % (o.kind, o.state.unmodelled[:2], o.state.notes[:1])
+                break
+            outs_all += [(I, o) for o in outs]
+        if undecided:
+            _f(out, "C03.R6", None, bid, "parse not decided by the abstract interpreter", undecided, line, file)
             continue
-        for o in outs:
+        for I, o in outs_all:
             s = o.state
             r = I.resolve(s, o.value)
             core = [x for x in s.events if x[0] == "core_call"]
@@ -597,12 +609,9 @@ def registration_contracts(facts):
                         if gc is None or gv is None:
                             und = "the parser's maps are not concrete after the call"
                             break
-                        if name == "check_claim":
-                            # whether an earlier validator under the same key survives a plain check_claim is not stated: not compared
-                            gv = dict((k, x) for k, x in gv.items() if k != K)
-                            wv = dict((k, x) for k, x in want_v.items() if k != K)
-                        else:
-                            wv = want_v
+                        # (a plain check_claim leaves the validators alone, the one under the same key included: a validator stays
+                        # registered - and keeps deciding its claim - until another validator replaces it)
+                        wv = want_v
                         # an expectation may be kept as given or already serialised (to_value of it)
                         gc = dict((k, "NEW" if x == "expected(%s)" % K and want_c.get(k) == "NEW" else x) for k, x in gc.items())
                         if gc != want_c:
